@@ -993,6 +993,17 @@ def separation(chk, thorough):
     q = np.array([[0.25, 0.5], [0.5, 0.25]])
     check("sig:points-dtype", "float64 and float32 points of equal value share a module name",
           name(expr(q), "expression"), name(expr(q.astype(np.float32)), "expression"), {"points": q.tolist()})
+    # the same expression twice, the same points overall, split differently between the two expressions: the per-expression
+    # point counts (hence num_points, the tables and the loop bounds of both kernels) differ, so the requests must separate
+    p3 = np.array([[0.125, 0.5], [0.25, 0.25], [0.5, 0.375]])
+    for tag, (a1, a2), (b1, b2) in (("2+1-vs-1+2", (p3[:2], p3[2:]), (p3[:1], p3[1:])),
+                                     ("3+1-vs-1+3", (np.vstack([p3, p3[:1] / 2])[:3], np.vstack([p3, p3[:1] / 2])[3:]),
+                                      (np.vstack([p3, p3[:1] / 2])[:1], np.vstack([p3, p3[:1] / 2])[1:]))):
+        check(f"sig:points-split:{tag}",
+              "two requests with the same expressions and the same points overall, split differently between the expressions, share a module name",
+              name(expr(a1) + expr(a2), "expression"), name(expr(b1) + expr(b2), "expression"),
+              {"request_a": [a1.tolist(), a2.tolist()], "request_b": [b1.tolist(), b2.tolist()],
+               "replay": "ffcx.codegeneration.jit.compile_expressions([(e, a1), (e, a2)]) vs [(e, b1), (e, b2)] in one cache_dir"})
 
 
 # ------------------------------------------------------------------------------ (e) distinct names
